@@ -326,13 +326,18 @@ class Initiator(DataExchangeProtocol):
                 if res.pfb.fmt == DEP_RES.TimeoutExtension:
                     error = "received NFC-DEP RTOX response to NACK or ATN"
                     raise nfc.clf.ProtocolError(error)
-                expected = (DEP_RES.LastInformation, DEP_RES.MoreInformation)
+                expected = [DEP_RES.LastInformation, DEP_RES.MoreInformation]
+                if chaining:  # the target may have to repeat its ACK
+                    expected.append(DEP_RES.PositiveAck)
                 if res.pfb.fmt not in expected:
                     error = "unrecoverable NFC-DEP transmission error"
                     raise nfc.clf.ProtocolError(error)
                 return res
             error = "unrecoverable NFC-DEP error in retransmission request"
             raise nfc.clf.ProtocolError(error)
+
+        chaining = (isinstance(req, DEP_REQ) and
+                    req.pfb.fmt == DEP_REQ.MoreInformation)
 
         if rwt > timeout:
             text = "response waiting time %.3f exceeds the timeout of %.3f sec"
